@@ -429,6 +429,9 @@ type vsStep struct {
 	LenField *int64 `json:"lenfield"`
 	Cut      *int   `json:"cut"`  // peer_send: write only the first cut bytes of the frame
 	Skip     *int   `json:"skip"` // peer_send: write the frame from byte skip on (the rest of a frame sent with cut=skip before)
+	Form     string   `json:"form"`   // send (api send / SendNoWait): the form of the outgoing Message: "" fresh from the constructor |
+	// "inspected1" / "inspected2": the application looked at it once / twice with the exported UnmarshalTo before sending |
+	// "twice": the same Message value is submitted by a second SendNoWait as well (probe only, see notes/C05.md)
 	Hold     bool     `json:"hold"`   // write_fail: the Write that fails parks first, until release_write
 	Frames   []vsStep `json:"frames"` // peer_batch: the frames (each written like a peer_send / keepalive / reply step, field "op")
 	Segs     []int    `json:"segs"`   // peer_batch: byte offsets at which the concatenated frames are split into separate Writes
@@ -705,6 +708,10 @@ func (s *vsSess) startCaller(st vsStep, shutdown bool) vsObs {
 					return
 				}
 			}
+			for k := 0; (st.Form == "inspected1" && k < 1) || (st.Form == "inspected2" && k < 2); k++ {
+				// legal use of the exported API: log / validate the payload before sending it
+				_ = m.UnmarshalTo(&vsIncoming{typ: MessageType(st.Typ)})
+			}
 			m.id = messageID(st.MsgID)
 			if st.Ver >= 0 {
 				m.version = VersionNum(st.Ver) // 0 = unset: the write loop fills in the client's version
@@ -714,6 +721,11 @@ func (s *vsSess) startCaller(st vsStep, shutdown bool) vsObs {
 					cr.res = vsObs{"res": vsClassify(err)}
 				} else {
 					cr.res = vsObs{"res": "sent"}
+					if st.Form == "twice" {
+						if err := s.c.SendNoWait(ctx, m); err != nil {
+							cr.res = vsObs{"res": vsClassify(err)}
+						}
+					}
 				}
 				return
 			}
